@@ -4,7 +4,7 @@ cd "$(dirname "$0")/.."
 for d in seeded/*/; do
   s=$(basename $d); own=${s%%-*}
   extra=""
-  case $s in C01-b|C03-a) extra="C04";; C07-a) extra="C05";; esac
+  case $s in C01-b|C03-a|C02-b) extra="C04";; C07-a) extra="C05";; esac
   python3 tools/seedtest.py $s $own $extra 2>&1 | grep " on " | cut -c1-260
 done
 python3 - <<'PY'
